@@ -17,6 +17,10 @@ def run_one(mod, case):
     t0 = time.time()
     res = {"id": case["id"], "status": "held"}
     try:
+        inj = os.environ.get("VERIF_SELFTEST_FLAKE", "")  # self-test of the confirm-by-rerun path: "<case id>:<marker file>"
+        if inj and inj.split(":")[0] == case["id"] and not os.path.exists(inj.split(":", 1)[1]):
+            open(inj.split(":", 1)[1], "w").write("x")
+            raise Violation("self-test: injected one-off alarm")
         out = mod.run_case(case) or {}
         res.update(out)
         res.setdefault("status", "held")
